@@ -218,6 +218,15 @@ func execSS(p *Plan, run *core.Run) {
 	}
 	want, _ := secret.MarshalBinary()
 	ss := secretsharing.New(ent, uint(p.T), secret)
+	if p.Seed%2 == 0 {
+		// the dealer's scalar object is the dealer's: it is wiped (or holds the next secret) once New has returned
+		secret.SetUint64(uint64(p.Seed%3) * 77)
+		secret = g.NewScalar()
+		if secret.UnmarshalBinary(want) != nil {
+			panic("HARNESS: secret scalar")
+		}
+		run.Fault("history:secret-object-wiped-or-reused-after-New")
+	}
 	var shares []secretsharing.Share
 	if p.IDs == "rand" {
 		ids := core.NewStream(p.Seed + 2)
